@@ -255,7 +255,16 @@ pub fn reverse_position_reply(
         swap.trader.clone(),
     )?;
 
-    let previous_margin = Integer::new_negative(position.margin);
+    // the position is closed here: charge the funding it owes since its checkpoint, like every
+    // other close does (a negative payment is owed to the trader)
+    let funding_payment = calc_remain_margin_with_funding_payment(
+        deps.as_ref(),
+        position.clone(),
+        swap.unrealized_pnl,
+    )?
+    .funding_payment;
+
+    let previous_margin = Integer::new_negative(position.margin).checked_add(funding_payment)?;
 
     // reset the position in order to reverse
     position = clear_position(env, position)?;
